@@ -79,10 +79,13 @@ def run(tier):
     k2 = 0
     for b1 in ('print!("a\\n");', "abort!();", 'var s = format!("x", 1);', 'print!(12345i64, "\\n");'):
         for b2 in ('print!("b\\n");', "abort!();", 'print!(7u8, "\\n");'):
-            m0 = 'import "m1.pn";\nfn main() -> u8\n{\n\t%s\n\thelper();\n\treturn: 0\n}\n' % b1
-            m1 = 'pub fn helper()\n{\n\t%s\n}\n' % b2
-            for order in (("m0.pn", m0, "m1.pn", m1), ("m1.pn", m1, "m0.pn", m0)):
-                cases.append(("j%d" % k2, "//// module %s\n%s//// module %s\n%s" % order, "modules-sharing-builtins")); k2 += 1
+            for call in ("", "\tvar y: i32 = helper(3);\n"):
+                m0 = 'import "m1.pn";\nfn main() -> u8\n{\n%s\t%s\n\treturn: 0\n}\n' % (call, b1)
+                m1 = 'pub fn helper(x: i32) -> i32\n{\n\t%s\n\treturn: x\n}\n' % b2
+                m2 = 'fn unused()\n{\n\t%s\n}\n' % b1
+                for order in (("m0.pn", m0, "m1.pn", m1), ("m1.pn", m1, "m0.pn", m0)):
+                    cases.append(("j%d" % k2, "//// module %s\n%s//// module %s\n%s" % order, "modules-sharing-builtins")); k2 += 1
+                cases.append(("j%d" % k2, "//// module m0.pn\n%s//// module m1.pn\n%s//// module m2.pn\n%s" % (m0, m1, m2), "modules-sharing-builtins")); k2 += 1
     impl = C.run_harness("ir", [(c[0], c[1]) for c in cases], ck.work + "/crash", timeout=3000)
     stats = collections.Counter(); kinds = collections.Counter()
     for cid, src, kind in cases:
